@@ -9,13 +9,14 @@ PROPERTY = "C17"
 LEVEL = "fault_enumeration"
 NEED = ("h4x",)
 RULE = ("base files built by the workload library (H elements incl. linked blocks and several DD blocks, Vdata+Vgroup, "
-        "SD datasets, GR images, annotations) with generated DD-block sizes; generated append-only sessions (new H "
+        "SD datasets, GR images, annotations; a DFSD-written file whose datasets are described by NDG groups only) with generated DD-block sizes; generated append-only sessions (new H "
         "elements of generated sizes, enough to need new DD blocks; new Vdatas/Vgroups; a new SDS; a new GR image; new "
         "annotations; members added to an existing Vgroup and attributes added to an existing Vdata, whose "
         "headers are rewritten through descriptor reuse; appending records into the unused tail of an existing "
         "Vdata's last linked block, or changing the class of an existing Vdata (header of unchanged or smaller size, "
         "rewritten in place) are not generated: they change an existing object rather than adding one) run once under the ordered stdio write log of the HDF stream; part 1: every write logged before "
-        "the flush marker starts at or beyond used_end(base) computed from the base file's descriptors by the "
+        "the flush (the marker placed before the closing call, or, if later, the first write into a descriptor "
+        "block of the base file: the closing call of SD/GR/AN sessions first appends its new metadata) starts at or beyond used_end(base) computed from the base file's descriptors by the "
         "independent reader; part 2: for every prefix of the write log (H/V sessions: all prefixes incl. inside the "
         "flush; SD/GR/AN sessions: prefixes before the flush) the image base+prefix is materialised, parsed by the "
         "independent reader, opened by the library in a fresh process, and every pre-existing element must read "
@@ -24,7 +25,7 @@ BUDGET = {"quick": {"shards": 8, "cases": 18}, "thorough": {"shards": 16, "cases
 MIN_NT = {"quick": 500, "thorough": 10000}
 ASSUMPTIONS = ["crash model of the property: a prefix of the ordered, atomic stdio writes on the HDF stream",
                "DD caching at its default (on)"]
-BASES = ["h_elements", "vdata_vgroup", "sd_basic", "gr", "an", "h_many"]
+BASES = ["h_elements", "vdata_vgroup", "sd_basic", "gr", "an", "h_many", "dfsd"]
 SESSIONS = ["h_append", "v_append", "sd_append", "gr_append", "an_append", "v_edit"]
 ALL_PREFIX = {"h_append", "v_append"}
 
@@ -45,6 +46,22 @@ def base_program(name, ndds):
         for i in range(1, 8):
             p.call("i", "Hputelement", V("f"), 900, i, bytes([i]) * (i * 3), i * 3)
         p.call("i", "Hclose", V("f"))
+        return p, "f.hdf"
+    if name == "dfsd":
+        # a file whose datasets are described by old-style NDG groups only (written by the DFSD interface),
+        # with strings, range and a dimension scale so that the groups have several members
+        p = Prog()
+        import numpy as _np
+        for k in range(2):
+            dims = [3, 4] if k == 0 else [5]
+            a = (_np.arange(int(_np.prod(dims)), dtype=">f4") + k).astype("=f4")
+            p.call("i", "DFSDclear")
+            p.call("i", "DFSDsetNT", 5)
+            p.call("i", "DFSDsetdims", len(dims), i32s(*dims))
+            p.call("i", "DFSDsetdatastrs", "lab%d" % k, "unit%d" % k, "F7.2", "")
+            p.call("i", "DFSDsetrange", _np.array([9.0], dtype="=f4").tobytes(), _np.array([-1.0], dtype="=f4").tobytes())
+            p.call("i", "DFSDsetdimscale", 1, dims[0], _np.arange(dims[0], dtype="=f4").tobytes())
+            p.call("i", "DFSDadddata", "f.hdf", len(dims), i32s(*dims), a.tobytes())
         return p, "f.hdf"
     fn = dict(wl.WORKLOADS)[name]
     p, paths = fn("")
@@ -149,7 +166,7 @@ def session_program(kind, fname, params):
 
 
 COMPAT = {"h_append": ["h_elements", "h_many", "vdata_vgroup", "an"], "v_append": ["vdata_vgroup", "h_elements", "h_many"],
-          "v_edit": ["vdata_vgroup"], "sd_append": ["sd_basic"], "gr_append": ["gr", "h_many"], "an_append": ["an", "h_many", "h_elements"]}
+          "v_edit": ["vdata_vgroup"], "sd_append": ["sd_basic", "dfsd"], "gr_append": ["gr", "h_many"], "an_append": ["an", "h_many", "h_elements"]}
 
 
 @st.composite
@@ -269,6 +286,13 @@ def run_case(case):
             ff = h4fmt.H4File(final_bytes)
             if len(ff.blocks) > len(bf.blocks):
                 labels.add("new_dd_block")
+            # the descriptor flush proper starts with the first write into a descriptor block of the base file;
+            # the close call of the SD/GR/AN sessions first appends new metadata, which still belongs to the
+            # part of the session that must only touch new space
+            def in_base_dd_block(off):
+                return any(boff <= off < boff + 6 + 12 * nd for (boff, nd, _n) in bf.blocks)
+            first_dd = next((j for j, (off, _d) in enumerate(writes) if in_base_dd_block(off)), len(writes))
+            flush_at = max(flush_at, first_dd) if first_dd >= flush_at else flush_at
             # part 1: nothing below used_end before the flush
             for j, (off, data) in enumerate(writes[:flush_at]):
                 if off < used_end:
